@@ -81,8 +81,14 @@ def translator(types):
 
 def zexpr(e, obj, allowed, types, consts):
     e = Subst(obj, allowed).visit(e)
+    casts = set()
     for n in ast.walk(e):
-        if isinstance(n, ast.Name):
+        # int(<expr>) is the identity on the integer value the model speaks of (py2v translates it so); it is
+        # how the source reduces a numpy integer scalar to a Python int before masking and shifting
+        if isinstance(n, ast.Call) and is_name(n.func, "int") and len(n.args) == 1 and not n.keywords:
+            casts.add(id(n.func))
+    for n in ast.walk(e):
+        if isinstance(n, ast.Name) and id(n) not in casts:
             need(n.id in allowed or n.id in consts, n, "free name in a translated expression")
     return translator(types).expr(e)
 
